@@ -9,6 +9,7 @@ import (
 	"encoding/json"
 	"flag"
 	"fmt"
+	"hash/fnv"
 	"io"
 	"math/rand"
 	"os"
@@ -110,10 +111,16 @@ func locate(tt css.TokenType, data []byte, base uintptr, n int, ltoks []ltok, by
 			}
 			return tr.E{"k": k, "i": i + 1}
 		}
-		if i+1 < len(ltoks) && len(data) > 1 && data[0] == '*' && bytes.Equal(ltoks[i].text, []byte("*")) &&
-			bytes.EqualFold(append([]byte("*"), ltoks[i+1].text...), data) {
-			*last = i + 2
-			return tr.E{"k": "join", "i": i + 1}
+		if len(data) > 1 && data[0] == '*' && bytes.Equal(ltoks[i].text, []byte("*")) {
+			// IE hack: '*' joined with the next token that is not whitespace or a comment
+			j := i + 1
+			for j < len(ltoks) && (ltoks[j].tt == css.WhitespaceToken || ltoks[j].tt == css.CommentToken) {
+				j++
+			}
+			if j < len(ltoks) && bytes.EqualFold(append([]byte("*"), ltoks[j].text...), data) {
+				*last = j + 1
+				return tr.E{"k": "join", "i": j + 1}
+			}
 		}
 	}
 	return tr.E{"k": "none", "why": "no such token at or after the last reported one"}
@@ -204,6 +211,14 @@ func Run(w *tr.Writer, input []byte, inline bool, gen tr.E) []Unit {
 	return units
 }
 
+// caseRng derives the spelling choices of one case from the seed and the case itself, so that the order in which TLC's
+// workers happen to emit the cases does not matter.
+func caseRng(seed int64, cls []string) *rand.Rand {
+	h := fnv.New64a()
+	fmt.Fprint(h, seed, cls)
+	return rand.New(rand.NewSource(int64(h.Sum64())))
+}
+
 type summary struct {
 	Suite      string        `json:"suite"`
 	Mode       string        `json:"mode"`
@@ -258,7 +273,7 @@ func Record(args []string) {
 				return
 			}
 			sum.Cases++
-			one(lexers.Concretise(c.Cls, rng), tr.E{"cls": c.Cls})
+			one(lexers.Concretise(c.Cls, caseRng(*seed, c.Cls)), tr.E{"cls": c.Cls})
 		})
 		if err != nil {
 			fmt.Fprintln(os.Stderr, err)
